@@ -6,6 +6,7 @@ Import ListNotations.
 From CXV Require Import Gen.TokTy Parse.Balanced Parse.BalancedThms Parse.Declarator Parse.DeclSpec Parse.DeclThms Parse.DeclPins.
 From CXV Require Gen.PinsC01.
 From CXV Require Import Parse.PQName Parse.Using Parse.EnumDecl Parse.ParamsX Parse.DeclStmt Parse.TemplateStmt.
+From CXV Require Import Parse.DispatchLang Gen.Dispatch Parse.DispatchExternThms Parse.DispatchInlineThms.
 From CXV Require Import Parse.EnumList Parse.Specs Parse.VarStmt Parse.FnTail Parse.Init Parse.Members Parse.Template.
 From CXV Require Import Parse.Fold Parse.FoldThms Parse.FoldPlace.
 Open Scope N_scope.
@@ -234,6 +235,42 @@ Theorem typedef_statement_with_function_types_decodes_partial : forall pre post 
      (DOk (map (ditem_entry bt) items ++ [ditem_entry bt last], rest)).
 Proof. exact typedef_decl_stmt_roundtrip. Qed.
 
+(* The keyword handlers in front of a declaration, as TRANSLATED from the code that exists now
+   (Gen/Dispatch.v, regenerated from the ASTs of _parse_extern / _parse_inline / _parse_typedef on every run;
+   the interpreter of Parse/DispatchLang.v runs the translated text):
+   `extern "C" {` opens an extern block with that linkage; `extern "C" <declaration>` pushes the string back
+   and hands the whole statement, from the `extern` keyword on, to the declaration parser; `extern template`
+   is an explicit instantiation flagged extern; any other `extern` is a declaration; `inline namespace` goes
+   to the namespace parser flagged inline, any other `inline` is a declaration; `typedef` hands the tokens
+   behind the keyword to the declaration parser flagged is_typedef. *)
+Theorem extern_block_is_opened : forall kw str lb R,
+  kty str = T_STRING_LITERAL -> kty lb = T_LIT_123 ->
+  run prog_parse_extern false kw (str :: lb :: R) = OOpenExtern (Some str) R.
+Proof. exact extern_block_opens. Qed.
+Theorem extern_linkage_declaration_keeps_every_token : forall kw str x R,
+  kty str = T_STRING_LITERAL -> kty x <> T_LIT_123 ->
+  run prog_parse_extern false kw (str :: x :: R) = OCall F_declarations [RTok (Some kw); RDox] [] (str :: x :: R).
+Proof. exact extern_linkage_declaration. Qed.
+Theorem extern_template_is_an_instantiation : forall kw t R,
+  kty t = T_template ->
+  run prog_parse_extern false kw (t :: R) = OCall F_template_instantiation [RDox; RBool true] [] R.
+Proof. exact extern_template_is_instantiation. Qed.
+Theorem plain_extern_is_a_declaration : forall kw x R,
+  kty x <> T_STRING_LITERAL -> kty x <> T_template ->
+  run prog_parse_extern false kw (x :: R) = OCall F_declarations [RTok (Some kw); RDox] [] (x :: R).
+Proof. exact extern_declaration. Qed.
+Theorem inline_namespace_goes_to_the_namespace_parser : forall kw ns R,
+  kty ns = T_namespace ->
+  forall ic, run prog_parse_inline ic kw (ns :: R) = OCall F_namespace [RTok (Some ns); RDox] [(3, RBool true)] R.
+Proof. exact inline_namespace_dispatch. Qed.
+Theorem other_inline_is_a_declaration : forall kw x R ic,
+  kty x <> T_namespace ->
+  run prog_parse_inline ic kw (x :: R) = OCall F_declarations [RTok (Some kw); RDox] [] (x :: R).
+Proof. exact inline_declaration_dispatch. Qed.
+Theorem typedef_goes_to_the_declaration_parser : forall kw x R ic,
+  run prog_parse_typedef ic kw (x :: R) = OCall F_declarations [RTok (Some x); RDox] [(1, RBool true)] R.
+Proof. exact typedef_dispatch. Qed.
+
 (* What a `template` statement is handed on to (_parse_template): behind ONE header
    the next token selects the continuation -- `using`, `friend`, `concept`, a
    requires-clause, or (any other token) a declaration that starts with that
@@ -325,6 +362,13 @@ Print Assumptions parameters_with_defaults_decode_partial.
 Print Assumptions declaration_statement_decodes_partial.
 Print Assumptions declarator_kinds_follow_the_source.
 Print Assumptions typedef_statement_with_function_types_decodes_partial.
+Print Assumptions extern_block_is_opened.
+Print Assumptions extern_linkage_declaration_keeps_every_token.
+Print Assumptions extern_template_is_an_instantiation.
+Print Assumptions plain_extern_is_a_declaration.
+Print Assumptions inline_namespace_goes_to_the_namespace_parser.
+Print Assumptions other_inline_is_a_declaration.
+Print Assumptions typedef_goes_to_the_declaration_parser.
 Print Assumptions template_statement_one_header_partial.
 Print Assumptions template_statement_many_headers_partial.
 Print Assumptions explicit_instantiation_consumes_nothing.
